@@ -1151,6 +1151,12 @@ class _Tree(_ArithmeticMixin, _Base):
 
         removed_first_bucket, value = child._del(key)
 
+        # Key comparisons (in the search above and in the descent) run
+        # foreign code.  If that swept the object cache, this node - not yet
+        # modified - was turned into a ghost and reloaded: self._data is then
+        # a new list and everything below must use it, not the old one.
+        data = self._data
+
         # See comment in _set about small trees
         if (
             len(data) == 1 and
@@ -1162,6 +1168,8 @@ class _Tree(_ArithmeticMixin, _Base):
         # fix up the node key, but not for the 0'th one.
         if index > 0 and child.size and compare(key, data[index].key) == 0:
             self._p_changed = True
+            # (the comparison may have swept the cache again)
+            data = self._data
             data[index].key = child.minKey()
 
         if removed_first_bucket:
